@@ -504,9 +504,15 @@ pub proof fn lemma_advance_no_nl(p: (int, int), s: Seq<char>)
 }
 
 #[verifier::external_body] pub fn verif_opaque_string() -> String { unimplemented!() }
+/// where a lexical error points (LexErr::new stores the position it is given: body pinned)
+pub uninterp spec fn err_pos(e: LexErr) -> CaretPos;
 impl LexErr {
     #[verifier::external_body]
-    pub fn new(pos: CaretPos, token: Option<Token>, msg: &str) -> LexErr { unimplemented!() }
+    pub fn new(pos: CaretPos, token: Option<Token>, msg: &str) -> (r: LexErr) ensures err_pos(r) == pos { unimplemented!() }
+}
+/// C19 "its position lies inside that file's text": p is where some character of the text sits, or the end of the text
+pub open spec fn at_char_of(p: CaretPos, text: Seq<char>) -> bool {
+    exists|k: int| 0 <= k <= text.len() && (p.line as int, p.pos as int) == #[trigger] advance((1int, 1int), text.subrange(0, k))
 }
 
 /// A-TOK: keyword / identifier recognition (`match` on string literals): the token is as wide as the text read
@@ -566,6 +572,7 @@ pub fn verif_havoc_string_arm(c: char, it: &mut Peekable<Chars>, state: &mut Sta
     requires wf(*old(state)), c == '"',
     ensures r is Ok ==> char_step(*old(state), c, rest(*old(it)), *final(state), rest(*final(it))), is_suffix(rest(*final(it)), rest(*old(it))),
         r matches Ok(v) ==> last_at_caret(v@, *final(state)) && last_starts_at(v@, old(state).pos),
+        r matches Err(e) ==> err_pos(e) == old(state).pos || interp_err(e),
 { unimplemented!() }
 
 /// outlines inside the string arm of into_tokens (A-STD / A-OUTLINE), text unchanged in /repo
@@ -584,7 +591,10 @@ pub fn verif_outline_trim_quotes<'a>(s: &'a String) -> (r: &'a str) { unimplemen
 /// HAVOCKED: re-lexing of the interpolated expressions of a string (closure chain over tokenize_direct); the
 /// nested token lists do not influence the span or the caret (Str's width and line breaks come from its text)
 #[verifier::external_body]
-pub fn verif_havoc_interpolated(exprs: &Vec<(CaretPos, String)>) -> (r: LexResult<Vec<Vec<Lex>>>) { unimplemented!() }
+pub fn verif_havoc_interpolated(exprs: &Vec<(CaretPos, String)>) -> (r: LexResult<Vec<Vec<Lex>>>) ensures r matches Err(e) ==> interp_err(e) { unimplemented!() }
+/// the error comes from re-lexing an interpolated expression `{..}` of a string: its position is the inner position moved to where
+/// the expression starts (havocked chain; fixed defect 14 is guarded by its replayed witness, not by a clause)
+pub uninterp spec fn interp_err(e: LexErr) -> bool;
 
 /// C18: reading `"` + text + `"` moves the caret exactly as the span of the string token says
 pub proof fn lemma_advance_text(p: (int, int), s: Seq<char>)
@@ -665,7 +675,7 @@ pub proof fn lemma_string_token_advance(p: (int, int), s: Seq<char>)
 
 //@@ IFNDEF STRARM
 #[verifier::loop_isolation(false)]
-//@@ FN src/parse/lex/tokenize.rs | free | into_tokens | props=C18,C03
+//@@ FN src/parse/lex/tokenize.rs | free | into_tokens | props=C18,C19,C03
 //@@ HINT after
 //@@< let mut $comment = String::new(); while it.peek().is_some()
 //@@> /* binds $comment */
@@ -700,10 +710,11 @@ pub proof fn lemma_string_token_advance(p: (int, int), s: Seq<char>)
         r is Ok ==> char_step(*old(state), c, rest(*old(it)), *final(state), rest(*final(it))),   //# caret_tracks_characters_read [C18,C14]
         r matches Ok(v) ==> last_at_caret(v@, *final(state)),                    //# last_span_ends_at_caret [C18]
         r matches Ok(v) ==> last_starts_at(v@, old(state).pos),                  //# token_starts_at_the_position_of_its_first_character [C18]
+        r matches Err(e) ==> err_pos(e) == old(state).pos || interp_err(e),      //# a_lexical_error_is_reported_at_the_first_character_of_the_offending_token [C19]
 //@@ END
 //@@ ELSE
 #[verifier::loop_isolation(false)]
-//@@ FN src/parse/lex/tokenize.rs | free | into_tokens | props=C18,C03
+//@@ FN src/parse/lex/tokenize.rs | free | into_tokens | props=C18,C19,C03
 //@@ HAVOC nopin
 //@@< match c { ',' => $$ '"' => { let mut
 //@@> match c { /* every arm before the string arm is dropped in this unit (verified in unit LEX) */ '"' => { let mut
@@ -725,7 +736,7 @@ pub proof fn lemma_string_token_advance(p: (int, int), s: Seq<char>)
 //@@ OUTLINE
 //@@< $string.trim_start_matches("\"\"").trim_end_matches("\"\"")
 //@@> verif_outline_trim_quotes(&$string)
-//@@ HAVOC pin=2fbfeeb420de
+//@@ HAVOC pin=30564c9ab881
 //@@< exprs .iter() .map($$) .collect::<Result<_, _>>()?
 //@@> verif_havoc_interpolated(&exprs)?
 //@@ HINT before
@@ -737,6 +748,7 @@ pub proof fn lemma_string_token_advance(p: (int, int), s: Seq<char>)
         // C18 at character level: after each call the caret is exactly where reading the consumed characters puts it
         (c == '"' && r is Ok) ==> char_step(*old(state), c, rest(*old(it)), *final(state), rest(*final(it))),   //# caret_tracks_characters_read [C18,C14]
         c == '"' ==> (r matches Ok(v) ==> last_at_caret(v@, *final(state)) && last_starts_at(v@, old(state).pos)),                    //# last_span_ends_at_caret [C18]
+        c == '"' ==> (r matches Err(e) ==> err_pos(e) == old(state).pos || interp_err(e)),   //# an_unterminated_string_is_reported_at_its_opening_quote [C19]
 //@@ END
 //@@ ENDIF
 
@@ -817,7 +829,7 @@ pub proof fn lemma_tokenize_step(input: Seq<char>, r_before: Seq<char>, c: char,
 
 //@@ IFNDEF STRARM
 #[verifier::loop_isolation(false)]
-//@@ FN src/parse/lex/mod.rs | free | tokenize | props=C18,C03
+//@@ FN src/parse/lex/mod.rs | free | tokenize | props=C18,C19,C03
 //@@ OUTLINE
 //@@< input.chars().peekable()
 //@@> verif_outline_chars_peekable(input)
@@ -835,7 +847,7 @@ pub proof fn lemma_tokenize_step(input: Seq<char>, r_before: Seq<char>, c: char,
 //@@> /* binds $tokens */
 //@@ HINT before
 //@@< $tokens.append(&mut into_tokens($c, &mut $it, &mut $state)?);
-//@@> let ghost rb = seq![$c] + rest($it); let ghost s0 = $state; let ghost rm = rest($it);
+//@@> let ghost rb = seq![$c] + rest($it); let ghost s0 = $state; let ghost rm = rest($it); proof { assert(input@.subrange(0, input@.len() - rb.len()) =~= consumed(input@, rb)); assert(at_char_of($state.pos, input@)); }
 //@@ HINT after
 //@@< $tokens.append(&mut into_tokens($c, &mut $it, &mut $state)?);
 //@@> proof { lemma_tokenize_step(input@, rb, $c, rm, rest($it), s0, $state); }
@@ -852,6 +864,7 @@ pub proof fn lemma_tokenize_step(input: Seq<char>, r_before: Seq<char>, c: char,
 //@@< let $out = pass(&$tokens);
 //@@> assert($tokens@.len() >= 1 && $tokens@.last().token == Token::Eof);  //# stream_ends_with_eof [C18]
     requires input@.len() + 64 < 0x4000_0000,                                    //# sizes_below_2_30 [C03]
+    ensures r matches Err(e) ==> at_char_of(err_pos(e), input@) || interp_err(e),   //# a_lexical_error_points_at_a_character_of_the_text [C19]
 //@@ END
 //@@ ENDIF
 
